@@ -136,13 +136,14 @@ def ver_edits(side, thorough):
     out = [['ver', side, 'flip', 9], ['ver', side, 'append', '20'], ['ver', side, 'append', '09'],
            ['ver', side, 'append', '2078'], ['ver', side, 'append', '0d'], ['ver', side, 'lf_only'],
            ['ver', side, 'trunc'], ['ver', side, 'insert', 12, 0x5f], ['ver', side, 'append', '0b'],
-           ['ver', side, 'append', '0c']]
+           ['ver', side, 'append', '0c'],
+           # rewrites a lenient receiver might treat as "the same version": all of them change V_C / V_S
+           ['ver', side, 'v199'], ['ver', side, 'case', 9], ['ver', side, 'append', '2020'], ['ver', side, 'comment']]
     if side == 's':
         out.append(['ver', side, 'banner'])
     if thorough:
         out += [['ver', side, 'flip', p] for p in (0, 4, 5, 7, 8, 10, 14)] + \
-               [['ver', side, 'v199'], ['ver', side, 'case', 9], ['ver', side, 'append', '2020'],
-                ['ver', side, 'append', '00'], ['ver', side, 'append', '200d'], ['ver', side, 'insert', 8, 0x20]]
+               [['ver', side, 'case', 12], ['ver', side, 'append', '00'], ['ver', side, 'append', '200d'], ['ver', side, 'insert', 8, 0x20]]
     return out
 
 
@@ -258,6 +259,8 @@ def make_edit(spec, fam, alg):
                 return line[:p] + bytes([spec[4]]) + line[p:] + b'\r\n'
             if op == 'v199':
                 return line.replace(b'SSH-2.0-', b'SSH-1.99-', 1) + b'\r\n'
+            if op == 'comment':
+                return (line.split(b' ')[0] + b' other comment' if b' ' in line else line + b' a comment') + b'\r\n'
             if op == 'banner':
                 return b'welcome to the machine\r\n' + data
             return None
@@ -1104,6 +1107,157 @@ def stage_asym(ctx, aead):
         ctx.broke('vacuity:asym', f'{okc} completed, {differ} with different results for the two directions')
 
 
+SIG_OF = {'ssh-rsa': b'ssh-rsa', 'rsa-sha2-256': b'rsa-sha2-256', 'rsa-sha2-512': b'rsa-sha2-512'}
+
+
+def sig_alg_for(hostkey_alg):
+    """the signature algorithm name a signature made for a negotiated host key algorithm must carry"""
+    return SIG_OF.get(hostkey_alg.replace('-cert-v01@openssh.com', ''), hostkey_alg.encode())
+
+
+async def seq_sessions(use_cert, steps):
+    """ONE listener (one set of server key pair objects), several clients one after the other.
+    steps: list of (client kind 'asyncssh' | 'mini', host key algorithm).  -> list of dict per step"""
+    import asyncio
+    import asyncssh
+    from .. import memwire
+    from .. import minissh as M
+    from .. import minissh_selftest as T
+    loop = asyncio.get_running_loop()
+    inline = True
+    try:
+        loop.set_default_executor(W.InlineExecutor(max_workers=1))
+    except Exception:                        # noqa
+        inline = False
+    hk = key('ssh-rsa')
+    if use_cert:
+        ca = key('ssh-ed25519')
+        cert = ca.generate_host_certificate(hk, 'c03-host', principals=['mem'])
+        keys, kh = [(hk, cert)], ([], [ca.convert_to_public()], [])
+    else:
+        keys, kh = [hk], ([hk.convert_to_public()], [], [])
+    tun = memwire.MemTunnel(loop)
+    mitms = []
+
+    def on_wire(wire):
+        m = W.Mitm(None)
+        wire.filter = m
+        mitms.append(m)
+    tun.on_wire = on_wire
+    acc = await asyncssh.listen('mem', 22, tunnel=tun, server_factory=T.NoAuthServer, server_host_keys=keys,
+                                kex_algs=['curve25519-sha256'])
+    out = []
+    for kind, alg in steps:
+        rec = {'client': kind, 'hostkey': alg, 'completed': False, 'sig_alg': None, 'error': None}
+        if kind == 'asyncssh':
+            task = asyncio.ensure_future(asyncssh.connect('mem', 22, tunnel=tun, known_hosts=kh, username='u',
+                                                          client_keys=None, config=None, server_host_key_algs=[alg],
+                                                          kex_algs=['curve25519-sha256']))
+            last, quiet = None, 0
+            for _ in range(6000):
+                if task.done():
+                    break
+                await asyncio.sleep(0 if inline else 0.002)
+                cur = (mitms[-1].nwrites if mitms else 0, len(mitms))
+                quiet = quiet + 1 if cur == last else 0
+                last = cur
+                if quiet > 80:
+                    break
+            if task.done() and not task.cancelled() and task.exception() is None:
+                rec['completed'] = True
+                task.result().abort()
+            elif task.done() and not task.cancelled():
+                rec['error'] = type(task.exception()).__name__
+            else:
+                task.cancel()
+            sig = W.local_view(mitms[-1], 's').get('sig') if mitms else None
+        else:
+            mini = M.MiniSSH('client', kex_algs=[b'curve25519-sha256'], hostkey_algs=[alg.encode()],
+                             host_key=lambda blob: True)
+            link = T.Link(mini)
+            link.attach(tun.server_factory('10.0.0.1', 40000))
+            try:
+                await link.until(lambda: mini.kex_count == 1, 'key exchange', timeout=20)
+                rec['completed'] = True
+            except Exception as e:           # noqa
+                rec['error'] = '%s: %s' % (type(e).__name__, str(e)[:80])
+            sig = None
+            for p in mini.raw_packets:
+                pl = p.get('payload')
+                if pl and pl[0] == 31:
+                    try:
+                        r = W.Rd(pl, 1)
+                        r.string()
+                        r.string()
+                        sig = r.string()
+                    except W.Short:
+                        pass
+            link.conn.abort()
+        if isinstance(sig, bytes):
+            try:
+                rec['sig_alg'] = W.Rd(sig).string()
+            except W.Short:
+                pass
+        out.append(rec)
+        await memwire.settle(6)
+    acc.close()
+    return out
+
+
+SEQS = [('asyncssh', 'rsa-sha2-512'), ('asyncssh', 'ssh-rsa')], \
+       [('asyncssh', 'ssh-rsa'), ('asyncssh', 'rsa-sha2-512'), ('mini', 'ssh-rsa')], \
+       [('mini', 'rsa-sha2-512'), ('mini', 'rsa-sha2-256'), ('mini', 'ssh-rsa'), ('asyncssh', 'rsa-sha2-256')], \
+       [('asyncssh', 'rsa-sha2-256'), ('mini', 'rsa-sha2-512'), ('asyncssh', 'rsa-sha2-256'), ('mini', 'ssh-rsa'),
+        ('asyncssh', 'rsa-sha2-512')]
+CERT = '-cert-v01@openssh.com'
+CERT_SEQS = [('asyncssh', 'rsa-sha2-512' + CERT), ('asyncssh', 'ssh-rsa' + CERT)], \
+            [('asyncssh', 'ssh-rsa' + CERT), ('asyncssh', 'rsa-sha2-256' + CERT), ('asyncssh', 'rsa-sha2-512' + CERT),
+             ('asyncssh', 'rsa-sha2-256' + CERT), ('asyncssh', 'ssh-rsa' + CERT)]
+
+
+def judge_seq(ctx, use_cert, steps, res):
+    bad = 0
+    for i, r in enumerate(res):
+        want = sig_alg_for(r['hostkey'])
+        if r['sig_alg'] is not None and r['sig_alg'] != want:
+            bad += 1
+            ctx.failing_input(
+                f'connection {i + 1} of {len(steps)} on one listener negotiated host key algorithm {r["hostkey"]} but the server '
+                f'signed the exchange hash with {r["sig_alg"].decode()} (state left over on the shared key pair by an earlier '
+                f'connection); {r["client"]} client: {"handshake completed" if r["completed"] else r["error"]}; '
+                f'sequence {[a for _k, a in steps]}',
+                {'kind': 'seq', 'cert': use_cert, 'steps': [list(s_) for s_ in steps]})
+    return bad
+
+
+def stage_sequences(ctx):
+    """several connections, one after the other, on ONE listener: the signature algorithm inside the signature
+    over H must be the one belonging to the host key algorithm negotiated by THAT connection"""
+    rng = ctx.rng
+    seqs = [(False, list(s_)) for s_ in SEQS] + [(True, list(s_)) for s_ in CERT_SEQS]
+    algs = ['ssh-rsa', 'rsa-sha2-256', 'rsa-sha2-512']
+    for _ in range(12 if ctx.tier == 'thorough' else 3):
+        cert = rng.random() < 0.4
+        seqs.append((cert, [('asyncssh' if cert or rng.random() < 0.5 else 'mini', rng.choice(algs) + (CERT if cert else ''))
+                            for _ in range(rng.randint(2, 5))]))
+    n = observed = 0
+    for use_cert, steps in seqs:
+        try:
+            res = sshutil.run(seq_sessions(use_cert, steps), timeout=120)
+        except Exception as e:               # noqa
+            ctx.broke('sequence-session', f'{steps}: {e!r}')
+            continue
+        judge_seq(ctx, use_cert, steps, res)
+        for r in res:
+            n += 1
+            observed += r['sig_alg'] is not None
+            ctx.count('seq.%s.%s' % (r['client'], 'completed' if r['completed'] else 'failed'))
+        ctx.note_case(('seq', use_cert, tuple(steps)), nontrivial=True)
+    ctx.cov['oracle'].update(sequence_connections=n, sequence_signatures_observed=observed)
+    if observed < n * 2 // 3:
+        ctx.broke('vacuity:sequences', f'signature algorithm observed in only {observed} of {n} connections')
+
+
 async def forging_server():
     import asyncio
     import asyncssh
@@ -1155,6 +1309,8 @@ def run(ctx):
         '(a0) the edits of (a) are also run through create_connection(), get_server_host_key(), get_server_auth_methods() '
         'and listen_reverse()/connect_reverse(): no altered handshake may deliver a result to the caller, and a key '
         'returned by get_server_host_key() must be the key the server sent; '
+        '(g) sequences of connections (asyncssh and MiniSSH clients, plain and certificate RSA host key) on ONE listener: the '
+        'signature algorithm inside the signature over H must belong to the host key algorithm negotiated by that connection; '
         '(f) negotiation against the independent peer sending DIFFERENT lists for the two directions (cipher, MAC, '
         'compression), both roles; '
         '(a) every on-path edit from a generated list is applied in flight to a real asyncssh client <-> server handshake '
@@ -1200,6 +1356,8 @@ def run(ctx):
     ctx.log('minissh stage done')
     stage_asym(ctx, aead)
     ctx.log('per-direction list stage done')
+    stage_sequences(ctx)
+    ctx.log('connection sequence stage done')
 
 
 def replay(rp):
@@ -1251,6 +1409,9 @@ def replay(rp):
                         c.failing_input(f'{x}: {obs[who][x]!r} != {exp[x] if exp else None!r}', rp)
         elif exp is not None and all(exp[x] is not None for x in NAMES8):
             c.failing_input('failed although a common algorithm exists', rp)
+    elif rp.get('kind') == 'seq':
+        steps = [tuple(x) for x in rp['steps']]
+        judge_seq(c, rp['cert'], steps, sshutil.run(seq_sessions(rp['cert'], steps)))
     elif rp.get('kind') == 'asym':
         d = rp['cfg']
         mk = {k: [x.encode() for x in v] for k, v in d['mini'].items()}
